@@ -84,18 +84,61 @@ def prepare(ver, wd):
                 c["wsid"] = ids[schema2rs.canon(c["in"]["wschema"])]
             out.write(json.dumps(c) + "\n")
     os.remove(raw)
-    src = schema2rs.generate(schemas, "minicbor-verif", nested_defs())
-    old = open(GEN_RS).read() if os.path.exists(GEN_RS) else ""
-    if src != old:
-        open(GEN_RS, "w").write(src)
-        core.log(f"[derive] generated {len(schemas)} types -> {GEN_RS}")
-    binp = core.cargo_build("vh-derive")
+    excluded = set()
+    for attempt in range(4):
+        src = schema2rs.generate(schemas, "minicbor-verif", nested_defs(), exclude=excluded)
+        old = open(GEN_RS).read() if os.path.exists(GEN_RS) else ""
+        if src != old:
+            open(GEN_RS, "w").write(src)
+            core.log(f"[derive] generated {len(schemas) - len(excluded)} types -> {GEN_RS}")
+        try:
+            core._built.discard(("vh-derive", (), False, None))
+            binp = core.cargo_build("vh-derive")
+            break
+        except core.ToolError:
+            # which generated types does rustc reject?  (a change to the macros can make the derived code of some definitions
+            # uncompilable; the others are still evaluated, the rejected ones are reported)
+            bad = uncompilable_sids(src)
+            if not bad or bad <= excluded or attempt == 3:
+                raise
+            excluded |= bad
+            core.log(f"[derive] {len(bad)} generated types do not compile against this repository; retrying without them")
+    if excluded:
+        ver.notes.append(f"derive: the derived code of {len(excluded)} of {len(schemas)} generated type definitions does not compile against this repository "
+                         f"(e.g. {json.dumps(schemas[sorted(excluded)[0]])[:300]}); they are left out of this run")
+        # restore the committed source for the next run on an unchanged tree
+        _cache[("excluded",)] = excluded
     _cache[key] = (binp, cases, res, len(schemas), n)
     _cache[("random",) + key] = (rcases, len(rschemas), len(rt) + len(compat))
     return _cache[key]
 
 
-WHY_OF = {"C08": {"bytes"}, "C07": {"len"}, "C09": {"dec:same", "dec:wider", "dec:indef", "dec:badtag", "dec:missing", "dec:unkvar", "panic"}, "C10": {"dec:fwd", "dec:bwd", "dec:xfwd", "dec:xbwd"}}
+def uncompilable_sids(src):
+    """Run cargo once more for its diagnostics and map every error location in gen_types.rs to the generated type it lies in."""
+    import re
+    import subprocess
+    r = subprocess.run(["cargo", "build", "--offline", "-q", "-p", "vh-derive", "--message-format=short"], cwd=core.HARNESS, capture_output=True, text=True,
+                       env=dict(os.environ, CARGO_NET_OFFLINE="true"))
+    lines = src.splitlines()
+    starts = [(i + 1, int(l.split()[2])) for i, l in enumerate(lines) if l.startswith("// @sid ") and l.split()[2] != "end"]
+    end = next((i + 1 for i, l in enumerate(lines) if l.startswith("// @sid end")), len(lines))
+    bad = set()
+    for m in re.finditer(r"gen_types\.rs:(\d+):\d+: error", r.stderr):
+        ln = int(m.group(1))
+        if ln >= end:
+            continue
+        cur = None
+        for start, sid in starts:
+            if start <= ln:
+                cur = sid
+            else:
+                break
+        if cur is not None:
+            bad.add(cur)
+    return bad
+
+
+WHY_OF = {"C08": {"bytes"}, "C07": {"len"}, "C09": {"dec:same", "dec:wider", "dec:indef", "dec:indefall", "dec:wideall", "dec:badtag", "dec:missing", "dec:unkvar", "panic"}, "C10": {"dec:fwd", "dec:bwd", "dec:xfwd", "dec:xbwd"}}
 
 
 def replay(ver, wd, only):
